@@ -18,7 +18,7 @@ ID = "C16"
 LEVEL = "exploration"
 MIN_OUTCOMES = 3
 MANIFEST = {
-    'text': 'Every string of a stated finite grammar (PEP 440 spellings with epochs, pre/post/dev/local segments, separators, leading zeros, case and blanks; bumpver-style and junk legacy strings) is parsed by the real comparison entry point, and ALL ordered pairs are compared with all six operators: agreement with an integer rank embedding proves the preorder laws on the whole set, agreement with packaging.version proves PEP 440 order and canonical text; exhaustive over the grammar. The two CLI call sites of the comparison (newest of config value and tag in `show`, the gate of `update --set-version`) are run for all ordered pairs of 13 versions whose text order differs from their PEP 440 order.',
+    'text': 'Every string of a stated finite grammar (PEP 440 spellings with epochs, pre/post/dev/local segments, separators, leading zeros, case and blanks, numbers at and beyond 2**63 in every numeric position; bumpver-style and junk legacy strings) is parsed by the real comparison entry point, and ALL ordered pairs are compared with all six operators: agreement with an integer rank embedding proves the preorder laws on the whole set, agreement with packaging.version proves PEP 440 order and canonical text; exhaustive over the grammar. The two CLI call sites of the comparison (newest of config value and tag in `show`, the gate of `update --set-version`) are run for all ordered pairs of 13 versions whose text order differs from their PEP 440 order.',
     'note': 'trusted base: packaging.version 26.3 as the PEP 440 reference; strings outside the grammar are not covered',
     'technique': 'exhaustive enumeration of a bounded input grammar, all-pairs comparison against rank embedding and reference order',
 }
@@ -104,6 +104,12 @@ def strings(tier, seed):
     base = ["1.0a1", "1.0.post1", "1.0.dev1", "v1.0rc1", "1!1.0", "1.0+abc.1", "1.0-ALPHA1", "1.0beta", "2020.1001-alpha"]
     for s in base:
         out += [s.upper(), " " + s, s + " ", "\t" + s + "\n", s.capitalize()]
+    # D: numbers around and beyond the machine word (2**63-1, 2**63, 2**64, 30 digits) in every numeric position
+    BIG = ["9223372036854775806", "9223372036854775807", "9223372036854775808", "18446744073709551616", "123456789012345678901234567890"]
+    for n in BIG:
+        out += [f"1.0.dev{n}", f"1.0a1.dev{n}", f"1.0rc1.dev{n}", f"1.0.post1.dev{n}", f"1.0.post{n}", f"1.0a{n}", f"1.0rc{n}", f"{n}.0", f"1.{n}", f"{n}!1.0",
+                f"1.0+{n}", f"1.0a1.post{n}", f"1.0.post{n}.dev1"]
+    out += ["1.0a1", "1.0rc1", "1.0.post1", "1.0", "1.0a1.post1", "1.0.post1.dev1"]
     out += LEGACY
     seen, uniq = set(), []
     for s in out:
